@@ -249,18 +249,20 @@ structure St where
   plat : Option UInt16
   tree : Tree
 
-/-- create the directories of `dir`, then replace the content of `dir/…/name` by `f old`
-(`old = []` when the file did not exist).  Undefined when a directory component is a regular file
-or the target is a directory. -/
+/-- replace the content of the file at `p` by `f old` (`old = []` when there was no file).
+Undefined on the root and when `p` is a directory. -/
+def placeFile (t : Tree) (p : Path) (f : Bytes → Bytes) : Option Tree :=
+  match p, get t p with
+  | [], _ => none
+  | _, some .dir => none
+  | _, some (.file old) => some (set t p (.file (f old)))
+  | _, none => some (set t p (.file (f [])))
+
+/-- with `mk`: create the directories leading to `p` first (undefined when one of them is a regular
+file); without: the parent directory must exist.  Then `placeFile`. -/
 def updateFile (t : Tree) (mk : Bool) (p : Path) (f : Bytes → Bytes) : Option Tree :=
-  match (if mk then mkdirAll t [] p.dropLast else (if isDir t p.dropLast then some t else none)) with
-  | none => none
-  | some t1 =>
-    match p, get t1 p with
-    | [], _ => none
-    | _, some .dir => none
-    | _, some (.file old) => some (set t1 p (.file (f old)))
-    | _, none => some (set t1 p (.file (f [])))
+  if mk then (mkdirAll t [] p.dropLast).bind fun t1 => placeFile t1 p f
+  else if isDir t p.dropLast then placeFile t p f else none
 
 def effect (s : St) : Cmd → Option St
   | .target pl .. => some { s with plat := some pl }
@@ -303,5 +305,18 @@ def run (s : St) : List Cmd → Option St
 the reference semantics defined at every step (decidable) -/
 def WFseq (cs : List Cmd) (s : St) : Bool :=
   cs.all Cmd.wf && (run s cs).isSome
+
+/-! ## the assumption on zlib
+
+`inflate compressed outLen` stands for raw inflate (`no_header_decompress`) into a buffer of
+`outLen` bytes.  The only thing assumed about it: it inverts the compression that produced the
+deflated blocks of the patch at hand, and ignores the zero padding after the stream. -/
+
+def Block.inflateOk (inflate : Bytes → Nat → Option Bytes) : Block → Prop
+  | .raw _ => True
+  | .deflated c d => inflate (c ++ zeros (paddedLen c.length - 16 - c.length)) d.length = some d
+
+def InflateOK (inflate : Bytes → Nat → Option Bytes) (cs : List Cmd) : Prop :=
+  ∀ off exp path blocks, Cmd.addFile off exp path blocks ∈ cs → ∀ b ∈ blocks, b.inflateOk inflate
 
 end Physis.Spec.ZiPatch
